@@ -746,6 +746,12 @@ class Run:
         if expect_ref:
             if missing:
                 self.bad(prop, "results.missing", f"jobs {missing} are reported missing although every batch ran to its end")
+                for k in missing:       # C04: the cancel rule is exact — a doomed flagged job gets a canceled result, every other job runs
+                    exp = self.ref.get(k)
+                    if exp and exp[0] == "canceled":
+                        self.bad("C04", "cancel.not_recorded", f"flagged job {k} has a failed/canceled blocker but got no canceled result (it is missing at completion)")
+                    elif exp and exp[0] == "finished":
+                        self.bad("C04", "run.never_started", f"job {k} must run (reference {exp}) once its blockers have outcomes, but it has no result at completion")
             for r in res:
                 k = jid(r["name"])
                 cls = "canceled" if r["status"] == "canceled" else "finished"
